@@ -747,6 +747,8 @@ def check_C12(ctx):
         rep.add("M1", "universe", "the universe of closed zero-copy types no longer compiles: " + str(ex)[-300:])
     # the result of every align call of a reader is propagated
     rules_err.rule_PERR(u, rep, DESER_SCOPE, only_callees=("align",))
+    # ... nor lost in an iterator adaptor on the eps side (flat_map / flatten over Results)
+    rules_err.rule_err_adaptors(u, rep, DESER_SCOPE, errs=rules_err.DESER_ERRS, only_fn=rules_err.takes_slice_cursor)
     return ("Guard of the only address-alignment check extracted from all paths of the slice-backed align; dominance of that call over every carve (adjacency in the wire term "
             "of every eps reader); who-may-construct for AlignmentError; unit >= native alignment over a universe of closed types. The per-placement outcome table is not decided.")
 
